@@ -186,7 +186,10 @@ def diff_fields(got, exp, got_recs, exp_recs):
     return out
 
 
-def check_trace(tr, drv, max_frames=80, mask=None):
+INV_NAMES = ['wfx', 'cap', 'clk', 'srv', 'blk', 'idle']
+
+
+def check_trace(tr, drv, max_frames=80, mask=None, inv_mask=None):
     """-> dict(frames, mismatch = first divergence that touches the mask (all fields when mask is None), other = number of
     frames that diverged only outside the mask)"""
     cfg = tr.cfg
@@ -201,16 +204,20 @@ def check_trace(tr, drv, max_frames=80, mask=None):
     ends = list(getattr(tr, 'run_ends', None) or [])
     runs = cfg['run'] if isinstance(cfg['run'][0], list) else [cfg['run']]
     ci = 0
-    # the hypothesis of the T2 theorems (Conserve.WFx []) evaluated on the real engine's initial snapshot
-    v0 = drv.ask('m34', sx.dump(enc_state(prev, cfg, nxt, now if isinstance(now, int) else 0)))
-    res['wfx_init'] = (v0[1].strip() if v0[0] == 'M' else str(v0))
-    if res['wfx_init'] != '1':
-        res['mismatch'] = {'frame': 0, 'what': 'the initial snapshot does not satisfy the invariant WFx [] of the T2 theorems', 'got': res['wfx_init']}
-        return res
-    v1 = drv.ask('m35', sx.dump([ecfg, enc_state(prev, cfg, nxt, now if isinstance(now, int) else 0)]))
-    res['cap_init'] = (v1[1].strip() if v1[0] == 'M' else str(v1))
-    if res['cap_init'] != '1':
-        res['mismatch'] = {'frame': 0, 'what': 'the initial snapshot does not satisfy the capacity hypotheses (J, Sysq) of the T2 theorem engine_capacity', 'got': res['cap_init']}
+    # the hypotheses of the T2 run theorems (Conserve.WFx [], Capacity.J + SysCap.Sysq, Clock.Clk, ...) evaluated by the
+    # extracted Coq booleans (Inv/AllRun.invs_b) on the real engine's initial snapshot; later snapshots: what they promise
+    def invs(state):
+        v = drv.ask('m36', sx.dump([ecfg, state]))
+        if v[0] != 'M':
+            return None
+        o = parse(v[1])
+        return o if isinstance(o, list) else None
+    b0 = invs(enc_state(prev, cfg, nxt, now if isinstance(now, int) else 0))
+    res['inv_init'] = b0
+    res['inv_frames'] = 0
+    if b0 is None or any(x != 1 for x in b0):
+        bad = [INV_NAMES[i] for i, x in enumerate(b0 or []) if x != 1]
+        res['mismatch'] = {'frame': 0, 'what': 'the initial snapshot does not satisfy the hypotheses of the T2 theorems', 'invariants': bad, 'got': b0}
         return res
     for k, f in enumerate(tr.frames[:max_frames]):
         crossed = False
@@ -263,4 +270,16 @@ def check_trace(tr, drv, max_frames=80, mask=None):
             res['other'] += 1
         res['frames'] += 1
         prev, nxt, now = f['snap'], f['next'], f['next_date']
+        if isinstance(now, int):
+            # the invariants on the implementation's own next state (T2 promises them for the model; K2 says the states agree)
+            bk = invs(enc_state(prev, cfg, nxt, now))
+            dok = all(isinstance(x, int) and x >= 0 for x in [e[3] for e in f['cev'] if e[0] == 'ArrDraw'] + [e[4] for e in f['cev'] if e[0] == 'SvcTime'])
+            if bk is None or any(x != 1 for x in bk):
+                bad = [INV_NAMES[i] for i, x in enumerate(bk or []) if x != 1]
+                if inv_mask is None or any(b in inv_mask for b in bad) or not bad:
+                    res['mismatch'] = {'frame': k + 1, 'what': 'a T2 invariant does not hold on the real snapshot', 'invariants': bad, 'label': f['label'], 'draws_nonneg': dok}
+                    return res
+                res['other'] += 1
+            else:
+                res['inv_frames'] += 1
     return res
